@@ -105,9 +105,10 @@ class StrToIndex(Contract):
     name = f"{IE}._utils._str_to_index"
     prop = ("C15",)
     top_level = True
-    cases = ("list", "ndarray")
+    cases = ("list", "ndarray", "list-after-a-same-named-enumeration-was-encoded")
     descr = ("names are kept only when they are names of members: if nothing was dropped, every result element is the index of "
-             "the member bearing the name given (whatever the order in which the enumeration declares its members)")
+             "the member bearing the name given (whatever the order in which the enumeration declares its members, and whatever "
+             "enumeration of the same name - the metaclass compares and hashes enumerations by name - was looked up before)")
 
     def setup(self, I, ctx, case):
         w = EnumWorld(I, ctx)
@@ -115,7 +116,25 @@ class StrToIndex(Contract):
         ctx.assume(L >= 1)
         V = z3.Function(ctx.fresh_name("V"), z3.IntSort(), STR)
         mk = lambda i: Opaque(V(B._z(i)), "name", {})
-        value = SymList(SeqVal(L, mk, "names")) if case == "list" else nparr.NArr(L, mk, "str", "names")
+        value = SymList(SeqVal(L, mk, "names")) if case != "ndarray" else nparr.NArr(L, mk, "str", "names")
+        if case.startswith("list-after"):
+            # history: another enumeration with the same class name (as many members, other names / another order) had names
+            # looked up before, through the real function
+            NAME0 = z3.Function(ctx.fresh_name("NAME_earlier"), z3.IntSort(), STR)
+            p, q = z3.Ints("a_n0 b_n0")
+            ctx.assume(z3.ForAll([p, q], z3.Implies(z3.And(0 <= p, p < q, q < w.n), NAME0(p) != NAME0(q)), patterns=[z3.MultiPattern(NAME0(p), NAME0(q))]))
+            H0 = ClassVal("H", None, list(w.H.bases), {})
+            H0.ns["indices"] = w.H.ns["indices"]
+            H0.ns["names"] = nparr.NArr(w.n, lambda i: Opaque(NAME0(B._z(i)), "name", {}), "str", "names-earlier")
+            V0 = z3.Function(ctx.fresh_name("V_earlier"), z3.IntSort(), STR)
+            L0 = ctx.fresh_int("L_earlier")
+            ctx.assume(L0 >= 1)
+            f, _ = self.target(I)
+            ctx.depth += 1
+            try:
+                I.inline_call(ctx, f, [], {"enum_class": H0, "value": SymList(SeqVal(L0, lambda i: Opaque(V0(B._z(i)), "name", {}), "names-earlier"))})
+            finally:
+                ctx.depth -= 1
         return {"enum_class": w.H, "value": value, "__w": w, "__L": L, "__V": V}
 
     def post(self, I, ctx, a, out, old):
@@ -142,6 +161,9 @@ class StrToIndex(Contract):
         out = []
         for names in (["b", "c", "a"], ["c", "a", "b"], ["d", "b", "a", "c"], ["a", "b"], ["z", "y", "x", "w", "v"]):
             out.append({"callee": self.name, "script": NATIVE, "mode": "names", "names": names, "values": names + names[::-1], "as_array": case == "ndarray"})
+            if case.startswith("list-after"):
+                out[-1]["earlier_names"] = names[::-1]
+                out.append(dict(out[-1], earlier_names=sorted(names)))
         return out
 
     def judge_native(self, I, case, call, nat):
@@ -188,7 +210,7 @@ class EncodeArrayLike(Contract):
     prop = ("C15",)
     top_level = True
     cases = ("ints", "members", "names", "member-of-another-enum-second", "member-of-another-enum-first", "floats", "numpy-float-scalars",
-             "mixed-int-and-str")
+             "mixed-int-and-str", "index-then-float", "member-then-index")
     descr = ("a sequence is encoded to the indices of the members it designates, in order; anything that is not a member of this "
              "enumeration (index out of range on either side, member of another enumeration, unsupported element type) raises")
     inline = (f"{IE}._guards.*", f"{IE}._utils.*", f"{EARR}.__new__", f"{IE}._errors.*")
@@ -217,6 +239,11 @@ class EncodeArrayLike(Contract):
             a["value"] = ListVal([w.member(w.G, 1), w.member(w.H, X(1))])
         elif case == "floats":
             a["value"] = ListVal([1.5, 2.5])
+        elif case == "index-then-float":
+            a["value"] = ListVal([0, 1.5])
+        elif case == "member-then-index":
+            ctx.assume(z3.And(X(0) >= 0, X(0) < w.n))
+            a["value"] = ListVal([w.member(w.H, X(0)), 0])
         elif case == "numpy-float-scalars":
             f64 = ClassVal("float64", None, [I.builtins["float"]], {}, external="numpy.float64")
             from pyvc.values import NpScalar
@@ -229,7 +256,7 @@ class EncodeArrayLike(Contract):
         w, L, X, case = a["__w"], a["__L"], a["__X"], a["__case"]
         if case in ("member-of-another-enum-second", "member-of-another-enum-first"):
             return [("member-of-another-enumeration-refused", out[0] == "raise")]
-        if case in ("floats", "mixed-int-and-str", "numpy-float-scalars"):
+        if case in ("floats", "mixed-int-and-str", "numpy-float-scalars", "index-then-float", "member-then-index"):
             return [("unsupported-elements-refused", out[0] == "raise" and out[1].cls.name in ("EnumEncodingError", "EnumMemberNotFoundError", "TypeError"))]
         i = ctx.fresh_int("i")
         rng = z3.And(i >= 0, i < L)
@@ -274,6 +301,9 @@ class EncodeArrayLike(Contract):
         if case == "names":
             return [{"callee": self.name, "script": NATIVE, "mode": "encode-names", "names": nm, "values": vals, "as_array": False}
                     for nm in (["b", "c", "a"], ["d", "b", "a", "c"]) for vals in (nm[::-1], nm + ["nobody"], ["nobody"] + nm[:1], nm[:1] * 3)]
+        if case in ("floats", "mixed-int-and-str", "numpy-float-scalars", "index-then-float", "member-then-index"):
+            return [{"callee": self.name, "script": NATIVE, "mode": "encode-unsupported",
+                     "sequences": [[0, "x"], ["m0", 1], [0, 1.5], [1, 2.0], [1.5, 2.5], [1.0], [0, 1, 0.5], ["m1", 2.0], [2, "m1"], [0, None]]}]
         return []
 
     def judge_native(self, I, case, call, nat):
